@@ -73,7 +73,9 @@ ChartClause(r) ==
            e  == IF lx.st # "ok" THEN [st |-> lx.st, chart |-> <<>>] ELSE ParseSSCChart(lx.params) IN
        IF e.st = "crash" THEN "domain:lone-backslash"
        ELSE IF e.st = "empty" THEN "domain:no-parameter"
-       ELSE IF r.res.st # e.st THEN "outcome"
+       ELSE IF r.res.st # e.st
+               /\ ~(lx.st = "MSDParserError" /\ r.level = "text" /\ lx.before # <<>>     \* lazy consumer: the
+                    /\ ParseSSCChart(lx.before).st = r.res.st) THEN "outcome"              \* first parameter is judged first
        ELSE IF e.st = "ok" /\ r.res.chart # e.chart THEN "chart-items"
        ELSE ""
   ELSE \* "smchart": r.comps are the components after NOTES
